@@ -1,7 +1,18 @@
 """C12 — training alignment: correspondence of Model/Fit.v with mokapot.model.Model.fit / predict /
-save_model / load_model, driven with a recording deterministic estimator (row-id feature column)."""
+save_model / load_model, driven with a recording deterministic estimator (row-id feature column).
+
+The Coq model sees every case in a CANONICAL form (integer feature values, plain feature names, the
+permutation drawn by the generator).  The real code sees the same case in one of many PRESENTATIONS
+(field "pres": row labels, column order and container of feature_columns, dtypes of features / targets /
+scores, an order-isomorphic value map, a position-dependent scaler, the kind of rng argument, a
+hyper-parameter search wrapper, the order of predict calls, an earlier fit on the same Model object);
+the implementation's answers are mapped back to the canonical form before the comparison."""
 import itertools
+import json
 import os
+import random as _random
+import subprocess
+import sys
 import tempfile
 from fractions import Fraction
 from pathlib import Path
@@ -11,28 +22,53 @@ from ..lib import call_impl
 
 PROP = "C12"
 RULE = ("(1) small scope: n=4..5 rows, every target vector with both classes x rank patterns of 2 score columns x "
-        "shuffle on/off x order-independent/order-dependent estimator x max_iter 1..3; (2) random: n<=60 (quick) / 300 "
+        "shuffle on/off x order-independent/order-dependent estimator x max_iter 1..3; (2) random: n<=60 (quick, plus a stream "
+        "with 201..260 rows: beyond the 'few PSMs' bound of 200) / 300 "
         "(thorough) rows, 1..4 candidate score columns with ties, extra feature columns, start = best feature / direction "
         "/ pretrained (stored feature order = or != table order), estimators with decision_function / 2-column predict_proba "
-        "/ 1-column predict_proba, max_iter 1..10, train_fdr in {0.01..1.0}, override, shuffle, seeds; second table with "
+        "/ 1-column predict_proba / 1-dimensional predict_proba / predict_proba as nested lists, max_iter 1..10, train_fdr in {0.01..1.0}, override, shuffle, seeds; second table with "
         "permuted / repeated rows and permuted / wrong feature columns; separable and rising/declining runs (labels and "
         "fitted state change between iterations, both 'performs worse' exits); (3) edge stream: no targets, no decoys, "
         "unknown direction, nothing passes, single-row tables, two-row tables, max_iter=0; (4) Model.predict alone: stored "
-        "names vs table names, untrained model; (5) save_model/load_model round trip on a third of the cases, to a fresh path, to a path that already holds another model, and to a path holding an unrelated leftover. "
-        "distinct = distinct case; non-trivial = at least two calls of estimator.fit or an error exit")
+        "names vs table names, untrained model; (5) save_model/load_model round trip on a third of the cases, to a fresh path, to a path that already holds another model, and to a path holding an unrelated leftover; "
+        "a sample of saved models is also loaded in a FRESH interpreter (other PYTHONHASHSEED, no module state). "
+        "(6) PRESENTATION, drawn independently for two thirds of the cases of (1)-(4) and invisible to the Coq model: row labels of the input frame "
+        "(RangeIndex / permuted integers / strings / duplicated), DataFrame column order (features interleaved with metadata, an unused column), "
+        "feature_columns as list / tuple / pandas Index / None (inferred), feature-name styles (plain / case- and whitespace-colliding / names of internal columns), "
+        "feature dtypes float64 / int64 / int32 / float32 / mixed, target column as bool / 0-1 int / 0.0-1.0 float / object, copy_data, "
+        "an order-isomorphic value map v -> v*2^k + c of the non-id features (eighths, 2^-10 steps, offsets 2^30 / -2^33: equal only after a cast to float32 / int / rounding), "
+        "scores returned as float64 / float32 / int64, a position-dependent recording scaler (column j times 2^(j+1), undone inside the estimator; counts its fits), "
+        "rng as int / numpy integer / Generator, train_fdr as float / numpy.float64 / int, max_iter as int / numpy.int64, numpy's and random's global state set to a drawn seed, GridSearchCV around the estimator (every fold fit is checked for rows "
+        "carrying their own label; best parameters must reach the fitted estimator), predict calls in the other order and repeated, and an EARLIER fit of the same Model object "
+        "on a sub-table (the model gets the second draw of the generator and, if the first fit succeeded, the re-fit branch with the state the MODEL computes for the first fit). "
+        "The estimator records the WHOLE feature row next to each label: a row whose features are those of another PSM is a disagreement. "
+        "(7) real estimators, checked by the property oracle alone (no Coq model; verdict = the oracle): LinearSVC / LogisticRegression / GridSearchCV(LinearSVC) with StandardScaler / MinMaxScaler / as-is on "
+        "continuous features: every fit call gets rows (recovered through scaler.inverse_transform) with their own labels, positives = targets with q <= train_fdr under the scores the estimator "
+        "returned just before, prediction of a row-subset / column-permuted table = prediction of the same rows of the training table (1e-9), pickle round trip identical, wrong feature set -> ValueError. "
+        "distinct = distinct case (canonical part + presentation); non-trivial = the implementation called estimator.fit at least twice in the main loop, or left through an error exit, "
+        "or (predict stream) a trained model; counted from the observed run, not from the case parameters")
 ASSUMPTIONS = [
-    "feature values are integers stored as float64; scores handed to the model are those integers (order and ties exact)",
+    "feature values are integers (canonical form) presented as v*2^k + c, exactly representable in the dtype used; scores handed to the model are the canonical integers (order and ties exact)",
     "train_fdr is a decimal literal: the model gets the exact decimal, the implementation float(decimal)",
-    "rng.permutation is an oracle: sigma = numpy.random.default_rng(seed).permutation(arange(n)) is passed to the model as data "
+    "rng.permutation is an oracle: sigma = numpy.random.default_rng(seed).permutation(arange(n)) (the second draw for a second fit) is passed to the model as data "
     "(contract checked: it is a permutation and it is what Model.fit draws)",
-    "scaler='as-is' (DummyScaler); pickle is an oracle for save/load (contract: identical predictions)",
-    "feature names are unique",
+    "scaler='as-is' (DummyScaler) or the recording scaler (columnwise powers of two, exact); StandardScaler / MinMaxScaler only in the real-estimator stream (tolerance 1e-9); "
+    "pickle is an oracle for save/load (contract: identical predictions)",
+    "feature names are unique strings",
+    "re-fitting a trained model scores the table with the raw estimator on positional, unscaled features (F17, modelled as written): re-fit cases use the as-is scaler",
 ]
 TRUSTED_EXTRA = ["numpy fancy indexing / argsort, pandas .loc selection, pickle are exercised, not modelled",
-                 "the recording estimator harness/props/c12.py:_RecBase is the learner oracle; its Coq twin is Fit.fit_demo_learn"]
+                 "the recording estimator harness/props/c12.py:_RecBase is the learner oracle; its Coq twin is Fit.fit_demo_learn",
+                 "real-estimator stream (fn='real'): no Coq model, the property oracle is the verdict"]
 
 LOGS = {}
 _KEY = [0]
+_OUTCOME = {}          # case hash -> (number of main-loop fit calls, "ok" / "err")   (for an honest `nontrivial`)
+_SIDE = {}             # case hash -> facts about an earlier fit of the same Model object (for the oracle)
+
+
+def _chash(c):
+    return lib.stable_hash({k: v for k, v in c.items() if k != "tags"})
 
 
 # ----------------------------------------------------------------------------- the recording estimator
@@ -51,25 +87,47 @@ def _make_classes():
     from sklearn.base import BaseEstimator
 
     class _RecBase(BaseEstimator):
-        def __init__(self, lk=0, idc=0, sc0=1, kk=1, log_key=None):
+        """lk, idc, sc0, kk: see Fit.fit_demo_learn; unscale: undo the recording scaler (column j was
+        multiplied by 2^(j+1)); sdtype: dtype of the scores handed back; hp / want: a hyper-parameter
+        without influence on the fit whose best value (for GridSearchCV) is `want`"""
+
+        def __init__(self, lk=0, idc=0, sc0=1, kk=1, log_key=None, unscale=0, sdtype="float64", hp=0, want=0):
             self.lk = lk
             self.idc = idc
             self.sc0 = sc0
             self.kk = kk
             self.log_key = log_key
+            self.unscale = unscale
+            self.sdtype = sdtype
+            self.hp = hp
+            self.want = want
+
+        def _x(self, X):
+            X = np.asarray(X)
+            if X.ndim != 2:
+                raise AssertionError("X is not two-dimensional")
+            if self.unscale:
+                X = X / (2.0 ** (np.arange(X.shape[1]) + 1))
+            return X
 
         def fit(self, X, y):
-            X = np.asarray(X)
-            pairs = [(int(i), float(v)) for i, v in zip(X[:, self.idc], y)]
-            if len(pairs) != X.shape[0] or len(pairs) != len(y):
+            X = self._x(X)
+            y = np.asarray(y)
+            if y.ndim != 1 or len(y) != X.shape[0]:
                 raise AssertionError("X and y differ in length")
-            LOGS.setdefault(self.log_key, []).append(pairs)
-            self.g_ = _learn(self.lk, self.kk, pairs)
+            ids = [float(v) for v in X[:, self.idc]]
+            pairs = [(int(i) if i == int(i) else i, float(v)) for i, v in zip(ids, y)]
+            LOGS.setdefault(self.log_key, []).append(
+                {"obj": id(self), "pairs": pairs, "rows": [[float(v) for v in row] for row in X]})
+            self.g_ = _learn(self.lk, self.kk, [(int(i), v) for i, v in pairs])
             return self
 
+        def score(self, X, y):          # used by GridSearchCV only
+            return -abs(float(self.hp) - float(self.want))
+
         def _s(self, X):
-            X = np.asarray(X)
-            return X[:, self.sc0 + self.g_].astype(float)
+            X = self._x(X)
+            return X[:, self.sc0 + self.g_].astype(self.sdtype)
 
     class RecDF(_RecBase):
         def decision_function(self, X):
@@ -84,14 +142,47 @@ def _make_classes():
         def predict_proba(self, X):
             return self._s(X).reshape(-1, 1)
 
-    for cls in (_RecBase, RecDF, RecProba2, RecProba1):
+    class RecProbaFlat(_RecBase):       # one-dimensional predict_proba
+        def predict_proba(self, X):
+            return self._s(X)
+
+    class RecProbaLists(_RecBase):      # two columns, as nested Python lists
+        def predict_proba(self, X):
+            s = self._s(X)
+            return [[-v, v] for v in s.tolist()]
+
+    class RecScaler(BaseEstimator):
+        """scikit-learn transformer interface; column j is multiplied by 2^(j+1) (exact, strictly increasing per
+        column, but NOT the same for every column: transforming a table whose columns are in another order
+        than at fit time gives other numbers).  Counts its fits."""
+
+        def __init__(self, base=2.0):
+            self.base = base
+
+        def fit(self, X, y=None):
+            X = np.asarray(X)
+            self.n_features_in_ = X.shape[1]
+            self.fits_ = getattr(self, "fits_", 0) + 1
+            return self
+
+        def transform(self, X):
+            X = np.asarray(X, dtype=float)
+            if X.shape[1] != self.n_features_in_:
+                raise ValueError("number of features differs from fit")
+            return X * (self.base ** (np.arange(X.shape[1]) + 1))
+
+        def fit_transform(self, X, y=None):
+            return self.fit(X).transform(X)
+
+    for cls in (_RecBase, RecDF, RecProba2, RecProba1, RecProbaFlat, RecProbaLists, RecScaler):
         cls.__module__ = __name__
         cls.__qualname__ = cls.__name__
         globals()[cls.__name__] = cls
-    return RecDF, RecProba2, RecProba1
+    return RecDF, RecProba2, RecProba1, RecProbaFlat, RecProbaLists, RecScaler
 
 
 _CLASSES = None
+_CLASS_NAMES = ("_RecBase", "RecDF", "RecProba2", "RecProba1", "RecProbaFlat", "RecProbaLists", "RecScaler")
 
 
 def _classes():
@@ -102,16 +193,21 @@ def _classes():
 
 
 def __getattr__(name):          # so that pickle finds the classes in a fresh interpreter as well
-    if name in ("_RecBase", "RecDF", "RecProba2", "RecProba1"):
+    if name in _CLASS_NAMES:
         _classes()
         return globals()[name]
     raise AttributeError(name)
 
 
 # ----------------------------------------------------------------------------- helpers
-def sigma_of(seed, n):
+def sigma_of(seed, n, earlier=None):
+    """what Model(rng=seed).fit draws for a table of n rows; earlier = number of rows of a table the same
+    generator was used for before (an earlier fit that got as far as the shuffle)"""
     import numpy as np
-    return [int(v) for v in np.random.default_rng(seed).permutation(np.arange(n))]
+    g = np.random.default_rng(seed)
+    if earlier is not None:
+        g.permutation(np.arange(earlier))
+    return [int(v) for v in g.permutation(np.arange(n))]
 
 
 def second_table(c):
@@ -126,34 +222,120 @@ def second_table(c):
     return list(c["pnames"]), cols2, len(prow)
 
 
-def _dataset(names, cols, targets, enforce):
-    import numpy as np
-    import pandas as pd
-    from mokapot.dataset import LinearPsmDataset
-    n = len(targets)
-    d = {"target": np.array([bool(t) for t in targets], dtype=bool), "spectrum": np.arange(n),
-         "peptide": ["P%d" % j for j in range(n)]}
-    for nm, col in zip(names, cols):
-        d[nm] = np.array(col, dtype=float)
-    df = pd.DataFrame(d, columns=["target", "spectrum", "peptide"] + list(names))
-    return LinearPsmDataset(df, target_column="target", spectrum_columns="spectrum", peptide_column="peptide",
-                            feature_columns=list(names), copy_data=True, enforce_checks=enforce)
+# ---- presentation of a canonical table to the real code
+CANON = ["id", "c0", "c1", "c2", "c3", "e0", "e1", "zz"]
+_STYLE1 = dict(zip(CANON, ["ID ", "\u00c4", "\u00e4", " a", "a ", "A.1", "a.1", "\u03b1 \u03b2"]))
+_STYLE2 = dict(zip(CANON, ["index", "score", "spectrum", "peptide", "label", "level_0", "q-value", "targets"]))
+VMAPS = [(0, 0), (-3, 0), (-10, 0), (0, 2 ** 30), (0, -2 ** 33), (-3, 2 ** 20), (4, 1)]
+PRES0 = {"index": 0, "dfperm": None, "fcols": "list", "fdtype": "float64", "tdtype": "bool", "copy": True, "nstyle": 0,
+         "vmap": [0, 0], "scaler": 0, "rng": "int", "wrap": 0, "sdtype": "float64", "porder": 0, "gstate": None,
+         "thr_type": "float", "iter_type": "int"}
 
 
-def _ints(arr):
+def _pres(c):
+    p = dict(PRES0)
+    p.update(c.get("pres") or {})
+    return p
+
+
+def _nm(style, name):
+    if style == 1:
+        return _STYLE1.get(name, name)
+    if style == 2:
+        return _STYLE2.get(name, name)
+    return name
+
+
+def _meta_names(style):
+    return ("is_target", "specid", "pep") if style == 2 else ("target", "spectrum", "peptide")
+
+
+def _vmap(pres, v):
+    sp, off = pres["vmap"]
+    x = Fraction(v) * Fraction(2) ** sp + off
+    f = float(x)
+    if Fraction(f) != x:
+        raise AssertionError("value map is not exact")
+    return f
+
+
+def _unmap(pres, vals):
+    """canonical integers of scores the implementation returned (ValueError if a score is not the image of an integer)"""
+    sp, off = pres["vmap"]
     out = []
-    for v in arr:
-        fv = float(v)
-        if fv != int(fv):
-            raise ValueError("non-integer score")
-        out.append(int(fv))
+    for v in vals:
+        x = (Fraction(float(v)) - off) / Fraction(2) ** sp
+        if x.denominator != 1:
+            raise ValueError("score is not the image of a canonical integer")
+        out.append(int(x))
     return out
 
 
+def _present_cols(names, cols, pres, idc):
+    """the feature columns as the implementation gets them (floats, exact)"""
+    return [[float(v) for v in col] if j == idc else [_vmap(pres, v) for v in col] for j, col in enumerate(cols)]
+
+
+def _dataset(names, cols, targets, enforce, pres=None, idc=None):
+    import numpy as np
+    import pandas as pd
+    from mokapot.dataset import LinearPsmDataset
+    pres = dict(PRES0, **(pres or {}))
+    n = len(targets)
+    st = pres["nstyle"]
+    tcol, scol, pcol = _meta_names(st)
+    tv = np.array([bool(t) for t in targets], dtype=bool)
+    tv = {"bool": tv, "int": tv.astype("int64"), "float": tv.astype(float),
+          "object": np.array([bool(t) for t in targets], dtype=object)}[pres["tdtype"]]
+    d = {tcol: tv, scol: np.arange(n), pcol: ["P%d" % j for j in range(n)]}
+    fnames = [_nm(st, nm) for nm in names]
+    fd = pres["fdtype"]
+    for j, (nm, col) in enumerate(zip(fnames, _present_cols(names, cols, pres, idc))):
+        dt = ("int64" if j == idc else "float64") if fd == "mixed" else fd
+        arr = np.array(col, dtype="float64").astype(dt)
+        if [float(v) for v in arr] != col:
+            raise AssertionError("feature values are not representable in " + dt)
+        d[nm] = arr
+    order = [tcol, scol, pcol] + fnames
+    fcols = pres["fcols"]
+    if pres["dfperm"] is not None:
+        rr = _random.Random(pres["dfperm"])
+        if fcols == "none":          # inferred feature columns: the features keep their relative order, the rest is interleaved
+            slots = sorted(rr.sample(range(len(order)), 3))
+            rest = iter(fnames)
+            meta = [tcol, scol, pcol]
+            rr.shuffle(meta)
+            meta = iter(meta)
+            order = [next(meta) if k in slots else next(rest) for k in range(len(order))]
+        else:
+            d["unused"] = np.array([rr.random() for _ in range(n)], dtype=float)
+            order = order + ["unused"]
+            rr.shuffle(order)
+    df = pd.DataFrame(d, columns=order)
+    ix = pres["index"]
+    if ix:
+        rr = _random.Random(1000 + ix + n)
+        lab = list(range(n))
+        rr.shuffle(lab)
+        df.index = ([v + 5 for v in lab] if ix == 1 else ["r%d" % v for v in lab] if ix == 2 else [v // 2 for v in range(n)])
+    fc = {"list": list(fnames), "tuple": tuple(fnames), "index": pd.Index(fnames), "none": None}[fcols]
+    return LinearPsmDataset(df, target_column=tcol, spectrum_columns=scol, peptide_column=pcol,
+                            feature_columns=fc, copy_data=pres["copy"], enforce_checks=enforce)
+
+
+def _ints(arr, pres=None):
+    return _unmap(pres or PRES0, list(arr))
+
+
+SKINDS = 5          # 0 decision_function, 1 two-column predict_proba, 2 one-column, 3 one-dimensional, 4 nested lists (two columns)
+_SKIND_MODEL = {0: 0, 1: 1, 2: 2, 3: 2, 4: 1}       # what Fit.v distinguishes
+
+
 def _estimator(c, key):
-    RecDF, RecProba2, RecProba1 = _classes()
-    cls = (RecDF, RecProba2, RecProba1)[c["skind"]]
-    return cls(lk=c["lk"], idc=c["idc"], sc0=c["sc0"], kk=c["kk"], log_key=key)
+    cls = _classes()[c["skind"]]
+    pres = _pres(c)
+    return cls(lk=c["lk"], idc=c["idc"], sc0=c["sc0"], kk=c["kk"], log_key=key, unscale=int(bool(pres["scaler"])),
+               sdtype=pres["sdtype"], hp=0, want=(c.get("seed", 0) % 3 if pres["wrap"] else 0))
 
 
 def q_spec(scores, targets, desc=True):
@@ -190,19 +372,82 @@ def _layout(rng, kk, nextra):
 
 def _case(names, cols, targets, idc, sc0, kk, *, lk=0, skind=0, mode=0, dir_="", g0=0, seed=1, shuffle=True,
           thr="0.5", max_iter=2, override=False, prow=None, pnames=None, enforce=True, pickle_=False, pre_names=None,
-          tags=()):
+          pres=None, first=None, tags=()):
     n = len(targets)
     return {"fn": "fit", "names": list(names), "cols": [list(c) for c in cols], "targets": [int(bool(t)) for t in targets],
             "lk": lk, "idc": idc, "sc0": sc0, "kk": kk, "skind": skind, "mode": mode, "dir": dir_, "g0": g0,
             "seed": seed, "shuffle": bool(shuffle), "thr": thr, "max_iter": max_iter, "override": bool(override),
             "prow": list(range(n)) if prow is None else list(prow),
             "pnames": list(names) if pnames is None else list(pnames),
-            "enforce": bool(enforce), "pickle": bool(pickle_), "pre_names": pre_names, "tags": list(tags)}
+            "enforce": bool(enforce), "pickle": bool(pickle_), "pre_names": pre_names,
+            "pres": pres, "first": first, "tags": list(tags)}
+
+
+def _draw_pres(rng, c):
+    """a presentation of the case for the real code (compatible with the case: integer dtypes and low-precision
+    scores only with the identity value map; re-fit cases keep the as-is scaler, see ASSUMPTIONS)"""
+    fit = c["fn"] == "fit"
+    refit = fit and (c["mode"] == 2 or c.get("first"))
+    p = {"index": rng.choice([0, 1, 2, 3]), "fcols": rng.choice(["list", "tuple", "index", "none"]),
+         "dfperm": rng.choice([None, rng.randrange(10 ** 6), rng.randrange(10 ** 6)]),
+         "nstyle": rng.choice([0, 0, 1, 2]), "tdtype": rng.choice(["bool", "bool", "int", "float", "object"]),
+         "copy": rng.random() < 0.7}
+    fd = rng.choice(["float64", "float64", "float64", "int64", "int32", "float32", "mixed"])
+    vm = rng.choice(VMAPS) if fd in ("float64", "mixed") else (0, 0)
+    p["fdtype"], p["vmap"] = fd, list(vm)
+    p["sdtype"] = rng.choice(["float64", "float32", "int64"]) if tuple(vm) == (0, 0) else "float64"
+    p["scaler"] = 0 if refit else rng.choice([0, 1])
+    p["rng"] = rng.choice(["int", "npint", "generator"])
+    p["wrap"] = 0 if (refit or not fit) else rng.choice([0, 0, 0, 1, 2])      # 1: GridSearchCV(refit=False), 2: refit=True
+    p["porder"] = rng.choice([0, 1])
+    p["gstate"] = rng.choice([None, rng.randrange(2 ** 31)])
+    p["thr_type"] = rng.choice(["float", "float", "npfloat64", "int" if c.get("thr") == "1.0" else "npfloat64"])
+    p["iter_type"] = rng.choice(["int", "int", "npint"])
+    return p
+
+
+def _pres_tags(p):
+    if not p:
+        return ["pres:canonical"]
+    t = ["pres:drawn"]
+    for k, v in sorted(p.items()):
+        if v != PRES0[k]:
+            t.append("pres:%s=%s" % (k, "drawn" if k in ("dfperm", "gstate") else ("%d,%d" % tuple(v) if k == "vmap" else v)))
+    return t
+
+
+def _draw_first(rng, c):
+    """an earlier fit of the same Model object: on a sub-table (rows in another order) holding both classes"""
+    n = len(c["targets"])
+    tg = [r for r in range(n) if c["targets"][r]]
+    dc = [r for r in range(n) if not c["targets"][r]]
+    if not tg or not dc:
+        return None
+    rest = [r for r in range(n)]
+    rng.shuffle(rest)
+    k = n if rng.random() < 0.4 else rng.randint(2, n)
+    rows = [rng.choice(tg), rng.choice(dc)]
+    rows += [r for r in rest if r not in rows][: max(0, k - 2)]
+    rng.shuffle(rows)
+    return {"rows": rows}
+
+
+def _decorate(rng, cases, share=0.67, first_share=0.12):
+    """draws presentations (and earlier fits) for a list of canonical cases"""
+    for c in cases:
+        if c["fn"] == "fit" and c["mode"] != 2 and "edge" not in c["tags"] and rng.random() < first_share:
+            c["first"] = _draw_first(rng, c)
+            if c["first"]:
+                c["tags"].append("fit-twice")
+        if rng.random() < share:
+            c["pres"] = _draw_pres(rng, c)
+        c["tags"].extend(_pres_tags(c.get("pres")))
+    return cases
 
 
 def _random_case(rng, nmax, tags, force=None):
     force = force or {}
-    n = rng.randint(2, nmax)
+    n = force.get("n") or rng.randint(2, nmax)
     kk = rng.randint(1, 4)
     nextra = rng.randint(0, 2)
     names, idc, sc0 = _layout(rng, kk, nextra)
@@ -237,7 +482,7 @@ def _random_case(rng, nmax, tags, force=None):
     dir_ = ""
     if mode == 1:
         dir_ = rng.choice([nm for nm in names if nm != "id"] + (["id"] if rng.random() < 0.1 else []))
-    skind = force.get("skind", rng.choice([0, 0, 1, 2]))
+    skind = force.get("skind", rng.choice([0, 0, 1, 2, 3, 4]))
     # second table
     prow = list(range(n))
     r = rng.random()
@@ -327,7 +572,7 @@ def gen(ctx):
         byname = {"id": ids}
         for nm in ("c0", "c1", "e0"):
             byname[nm] = [(20 + rng.randrange(20)) if (t and rng.random() < hi[nm]) else rng.randrange(10) for t in targets]
-        c = _case(names, [byname[nm] for nm in names], targets, idc, sc0, 2, lk=rng.choice([0, 1]), skind=rng.choice([0, 0, 1, 2]),
+        c = _case(names, [byname[nm] for nm in names], targets, idc, sc0, 2, lk=rng.choice([0, 1]), skind=rng.choice([0, 0, 1, 2, 3, 4]),
                   mode=rng.choice([0, 1, 1]), dir_="e0", seed=rng.randrange(10 ** 6), shuffle=rng.random() < 0.5,
                   thr=rng.choice(["0.1", "0.2", "0.3"]), max_iter=rng.randint(2, 5), override=rng.random() < 0.3)
         c["tags"] = ["decline", "shuffle" if c["shuffle"] else "no-shuffle"]
@@ -353,14 +598,14 @@ def gen(ctx):
             c["prow"] = [rng.randrange(n)]
             c["pnames"] = list(c["names"])
             rng.shuffle(c["pnames"])
-            c["thr"], c["override"], c["skind"] = "1.0", True, rng.choice([0, 1, 2])
+            c["thr"], c["override"], c["skind"] = "1.0", True, rng.choice([0, 1, 2, 3, 4])
         elif kind == "max-iter-0":
             c["max_iter"] = 0
         elif kind == "pre-proba2":
-            c["mode"], c["skind"] = 2, 1
+            c["mode"], c["skind"] = 2, rng.choice([1, 1, 3, 4])
         elif kind == "two-rows":
             c = _case(["id", "c0"], [[5, 3], [rng.randrange(3), rng.randrange(3)]], rng.choice([[1, 0], [0, 1]]), 0, 1, 1,
-                      lk=rng.choice([0, 1]), skind=rng.choice([0, 1, 2]), seed=rng.randrange(100), shuffle=rng.random() < 0.5,
+                      lk=rng.choice([0, 1]), skind=rng.choice([0, 1, 2, 3, 4]), seed=rng.randrange(100), shuffle=rng.random() < 0.5,
                       thr="1.0", max_iter=rng.randint(1, 3), override=rng.random() < 0.5)
         c["tags"] = ["edge", kind]
         cases.append(c)
@@ -381,10 +626,40 @@ def gen(ctx):
         elif r < 0.9:
             pn[rng.randrange(len(pn))] = "zz"
         cases.append({"fn": "predict", "trained": rng.random() < 0.9, "sc0": sc0, "idc": idc, "kk": kk, "stored": stored,
-                      "skind": rng.choice([0, 1, 2]), "g": rng.randrange(kk), "names": pn,
+                      "skind": rng.choice([0, 1, 2, 3, 4]), "g": rng.randrange(kk), "names": pn,
                       "cols": [[rng.randrange(50) for _ in range(n)] for _ in pn], "n": n,
                       "tags": ["predict", "n=1" if n == 1 else "n>1",
                                "same-set" if set(pn) == set(stored) else "wrong-feature-set"]})
+    # (2b) more rows than the 'few PSMs' bound of Model.fit (200), in both tiers
+    rng = ctx.sub("large")
+    for k in range(60 if ctx.thorough else 24):
+        c = _random_case(rng, 0, (), force={"n": rng.randint(201, 260 if not ctx.thorough else 420),
+                                            "max_iter": rng.choice([1, 2, 3])})
+        c["tags"] = ["large", "shuffle" if c["shuffle"] else "no-shuffle", "skind=%d" % c["skind"]]
+        cases.append(c)
+    # (6) presentations and earlier fits
+    _decorate(ctx.sub("presentation"), cases)
+    # (7) real estimators (oracle only)
+    rng = ctx.sub("real")
+    for k in range(120 if ctx.thorough else 36):
+        est = ["svc", "logreg", "perc", "grid"][k % 4]
+        sc = rng.choice(["standard", "standard", "minmax", "as-is"])
+        nf = rng.randint(2, 5)
+        n = rng.choice([60, 120, 250]) if not ctx.thorough else rng.choice([60, 120, 250, 600])
+        pn = list(range(nf + 1))
+        r = rng.random()
+        if r < 0.7:
+            rng.shuffle(pn)
+        elif r < 0.85:
+            pn.pop(rng.randrange(len(pn)))
+        m = rng.randint(1, n)
+        cases.append({"fn": "real", "est": est, "scaler": sc, "n": n, "nf": nf, "dseed": rng.randrange(10 ** 6),
+                      "seed": rng.randrange(10 ** 6), "shuffle": rng.random() < 0.5, "thr": rng.choice(["0.05", "0.1", "0.2"]),
+                      "max_iter": rng.randint(1, 4), "direction": rng.random() < 0.3, "pcols": pn,
+                      "prow": [rng.randrange(n) for _ in range(m)], "hist": k % 3,
+                      "pres": {k2: v for k2, v in _draw_pres(rng, {"fn": "real"}).items()
+                               if k2 in ("index", "fcols", "dfperm", "tdtype", "copy", "rng", "gstate")},
+                      "tags": ["real", "real:" + est, "real-scaler:" + sc]})
     return cases
 
 
@@ -397,23 +672,58 @@ def _cols(cols):
     return lib.lst(cols, lambda col: lib.lst(col))
 
 
+def first_case(c):
+    """the earlier fit of a fit-twice case as a case of its own (same Model settings, the sub-table)"""
+    rows = c["first"]["rows"]
+    return dict(c, cols=[[col[r] for r in rows] for col in c["cols"]], targets=[c["targets"][r] for r in rows],
+                prow=list(range(len(rows))), pnames=list(c["names"]), pickle=False, first=None, pre_names=None)
+
+
+_FIRST = {}
+
+
+def first_model(c):
+    """what the MODEL says about the earlier fit: (ok?, g, desc, best, did the generator draw?)"""
+    h = _chash(c)
+    if h not in _FIRST:
+        fc = first_case(c)
+        out = lib.run_driver([encode(fc)])[0]
+        trace, res = decode(fc, lib.Toks(out))
+        if res[0] == "ok":
+            _FIRST[h] = (True, res[1][0], res[1][2], res[1][3], True)
+        else:
+            # Model.fit draws the permutation after the starting labels: errors raised before (no targets / decoys,
+            # unknown direction, nothing passes) leave the generator untouched; errors of the loop come after the draw
+            _FIRST[h] = (False, None, None, None, bool(trace) or res[1] == "IndexError")
+    return _FIRST[h]
+
+
 def encode(c, patched=True):
+    if c["fn"] == "real":
+        return "c12.predict 0 b0 0 0 b0 0 0 b0"        # no model for this stream; see `same`
     if c["fn"] == "predict":
         return "c12.predict %s %s %s %d %s %s %s %s" % (
-            lib.b(c["trained"]), lib.z(c["sc0"]), _strs(c["stored"]), c["skind"], lib.z(c["g"]),
+            lib.b(c["trained"]), lib.z(c["sc0"]), _strs(c["stored"]), _SKIND_MODEL[c["skind"]], lib.z(c["g"]),
             _strs(c["names"]), _cols(c["cols"]), lib.z(c["n"]))
     n = len(c["targets"])
     names2, cols2, n2 = second_table(c)
+    mode, g0, earlier = c["mode"], c["g0"], None
+    if c.get("first"):
+        ok, g1, _, _, drew = first_model(c)
+        if ok:
+            mode, g0 = 2, g1
+        if drew:
+            earlier = len(c["first"]["rows"])
     return "c12.fit %s %s %s %s %s %d %s %s %s %s %s %s %s %s %s %s %s %s %s %s" % (
-        lib.b(patched), lib.z(c["lk"]), lib.z(c["idc"]), lib.z(c["sc0"]), lib.z(c["kk"]), c["skind"],
-        lib.z(c["mode"]), lib.s(c["dir"]), lib.z(c["g0"]),
+        lib.b(patched), lib.z(c["lk"]), lib.z(c["idc"]), lib.z(c["sc0"]), lib.z(c["kk"]), _SKIND_MODEL[c["skind"]],
+        lib.z(mode), lib.s(c["dir"]), lib.z(g0),
         _strs(c["names"]), _cols(c["cols"]), lib.lst(c["targets"], lib.b),
-        lib.lst(sigma_of(c["seed"], n)), lib.b(c["shuffle"]), lib.q(Fraction(c["thr"])), lib.z(c["max_iter"]),
+        lib.lst(sigma_of(c["seed"], n, earlier)), lib.b(c["shuffle"]), lib.q(Fraction(c["thr"])), lib.z(c["max_iter"]),
         lib.b(c["override"]), _strs(names2), _cols(cols2), lib.z(n2))
 
 
 def decode(c, t):
-    if c["fn"] == "predict":
+    if c["fn"] in ("predict", "real"):
         return t.result(lambda: t.lst(t.z))
     trace = t.lst(lambda: t.lst(lambda: [t.z(), t.b()]))
 
@@ -425,36 +735,120 @@ def decode(c, t):
         p1 = t.result(lambda: t.lst(t.z))
         p2 = t.result(lambda: t.lst(t.z))
         return [g, fp, d, b, p1, p2]
-    return [trace, t.result(body)]
+    res = t.result(body)
+    if c.get("first") and res[0] == "ok":
+        ok, _, d1, b1, _ = first_model(c)
+        if ok:      # a re-fit keeps model.desc / model.best_feat of the earlier fit (_get_starting_labels, trained branch)
+            res[1][2], res[1][3] = d1, b1
+    return [trace, res]
+
+
+def same(c, m, i):
+    if c["fn"] == "real":       # oracle-only stream: the verdict is the property check made on the implementation's run
+        return lib.jsonable(i) == ["ok", "holds"]
+    return lib.jsonable(m) == lib.jsonable(i)
 
 
 # ----------------------------------------------------------------------------- implementation side
+def _canon_call(entry, exp_rows):
+    """one call of estimator.fit in canonical form: [[row id, label], ...]; a row whose feature values are not
+    those of the PSM with that id gets the label 'features-of-another-row'"""
+    out = []
+    for (rid, y), row in zip(entry["pairs"], entry["rows"]):
+        lab = {0.0: False, 1.0: True}.get(y, y)
+        if exp_rows.get(rid) != row:
+            lab = "features-of-another-row"
+        out.append([rid, lab])
+    return out
+
+
+def _make_model(c, key, pres):
+    import numpy as np
+    from mokapot.model import Model
+    est = _estimator(c, key)
+    if pres["wrap"]:
+        from sklearn.model_selection import GridSearchCV, KFold
+        est = GridSearchCV(est, param_grid={"hp": [0, 1, 2]}, cv=KFold(2), refit=(pres["wrap"] == 2))
+    scaler = _classes()[5]() if pres["scaler"] else "as-is"
+    seed = c["seed"]
+    rng = {"int": seed, "npint": np.int64(seed), "generator": np.random.default_rng(seed)}[pres["rng"]]
+    if pres["gstate"] is not None:          # the global generators are somebody else's business: any state must do
+        np.random.seed(pres["gstate"] % (2 ** 32))
+        _random.seed(pres["gstate"])
+    thr = {"float": float, "npfloat64": np.float64, "int": int}[pres["thr_type"]](float(c["thr"]))
+    return Model(est, scaler=scaler, train_fdr=thr, max_iter=(np.int64(c["max_iter"]) if pres["iter_type"] == "npint" else c["max_iter"]),
+                 direction=(_nm(pres["nstyle"], c["dir"]) if c["dir"] in c["names"] else c["dir"]) if c["mode"] == 1 else None,
+                 override=c["override"], shuffle=c["shuffle"], rng=rng)
+
+
 def _run_fit(c):
     """real Model.fit / predict (and save/load) -> same shape as the model's result"""
-    from mokapot.model import Model, save_model, load_model
+    from mokapot.model import save_model, load_model
+    from sklearn.model_selection._search import BaseSearchCV
     _KEY[0] += 1
     key = "k%d" % _KEY[0]
     LOGS[key] = []
+    pres = _pres(c)
+    st = pres["nstyle"]
     try:
         names = c["names"]
-        ds = _dataset(names, c["cols"], c["targets"], c["enforce"])
-        m = Model(_estimator(c, key), scaler="as-is", train_fdr=float(c["thr"]), max_iter=c["max_iter"],
-                  direction=(c["dir"] if c["mode"] == 1 else None), override=c["override"], shuffle=c["shuffle"],
-                  rng=c["seed"])
+        fnames = [_nm(st, nm) for nm in names]
+        shown = _present_cols(names, c["cols"], pres, c["idc"])
+        exp_rows = {c["cols"][c["idc"]][r]: [col[r] for col in shown] for r in range(len(c["targets"]))}
+        ds = _dataset(names, c["cols"], c["targets"], c["enforce"], pres, c["idc"])
+        m = _make_model(c, key, pres)
         if c["mode"] == 2:       # a trained model, set up as load_model does for Percolator weights
             m.estimator.g_ = c["g0"]
-            m.features = list(c.get("pre_names") or names)
+            m.features = [_nm(st, nm) for nm in (c.get("pre_names") or names)]
             m.is_trained = True
+        side = {}
+        if c.get("first"):       # an earlier fit of the same Model object, on a sub-table
+            fc = first_case(c)
+            ds0 = _dataset(names, fc["cols"], fc["targets"], False, dict(pres, index=(pres["index"] + 1) % 4), c["idc"])
+            r0 = call_impl(m.fit, ds0)
+            side = {"first_ok": r0[0] == "ok", "g1": int(m.estimator.g_) if r0[0] == "ok" else None}
+            LOGS[key] = []
+        _SIDE[_chash(c)] = side
         r = call_impl(m.fit, ds)
-        trace = [[[i, {0.0: False, 1.0: True}.get(y, y)] for i, y in call] for call in LOGS[key]]
+        inner = m.estimator.estimator if isinstance(m.estimator, BaseSearchCV) else m.estimator
+        entries = LOGS[key]
+        trace = [_canon_call(e, exp_rows) for e in entries if e["obj"] == id(inner)]
+        # fits made by the hyper-parameter search: rows carry their own label, the label of the first iteration
+        lab0 = {rid: lab for rid, lab in trace[0]} if trace else None
+        for e in entries:
+            if e["obj"] == id(inner):
+                continue
+            for rid, lab in _canon_call(e, exp_rows):
+                r_ = [k for k in range(len(c["targets"])) if c["cols"][c["idc"]][k] == rid]
+                ok = (lab in (True, False) and len(r_) == 1 and (lab0[rid] == lab if lab0 is not None and rid in lab0
+                                                                  else (lab0 is None and bool(c["targets"][r_[0]]) == lab)))
+                if not ok:
+                    trace.append([[rid, "hyper-parameter-search:" + str(lab)]])
+                    break
+        _OUTCOME[_chash(c)] = (len(trace), r[0])
         if r[0] != "ok":
             return [trace, r]
-        best = names.index(m.best_feat) if c["mode"] == 0 else None
+        best = fnames.index(m.best_feat) if isinstance(m.best_feat, str) and m.best_feat in fnames else None
         desc = None if m.desc is None else bool(m.desc)
-        p1 = call_impl(lambda: _ints(m.predict(ds)))
         names2, cols2, n2 = second_table(c)
-        ds2 = _dataset(names2, cols2, [c["targets"][r_] for r_ in c["prow"]], False)
-        p2 = call_impl(lambda: _ints(m.predict(ds2)))
+        pres2 = dict(pres, index=(pres["index"] + 2) % 4, fcols={"list": "tuple", "tuple": "none", "none": "index", "index": "list"}[pres["fcols"]],
+                     dfperm=None if pres["dfperm"] is None else pres["dfperm"] + 1,
+                     fdtype=pres["fdtype"] if pres["fdtype"] in ("int64", "int32", "float32") else {"float64": "mixed", "mixed": "float64"}[pres["fdtype"]])
+        ds2 = _dataset(names2, cols2, [c["targets"][r_] for r_ in c["prow"]], False, pres2,
+                       names2.index("id") if "id" in names2 else None)
+        fits_before = getattr(m.scaler, "fits_", None)
+        if pres["porder"] == 0:
+            p1 = call_impl(lambda: _ints(m.predict(ds), pres))
+            p2 = call_impl(lambda: _ints(m.predict(ds2), pres))
+        else:                    # the other order, and again: predicting must not leave anything behind
+            p2 = call_impl(lambda: _ints(m.predict(ds2), pres))
+            p1 = call_impl(lambda: _ints(m.predict(ds), pres))
+            if call_impl(lambda: _ints(m.predict(ds2), pres)) != p2 or call_impl(lambda: _ints(m.predict(ds), pres)) != p1:
+                p2 = ("err", "RepeatedPredictDiffers")
+        if getattr(m.scaler, "fits_", None) != fits_before:
+            p2 = ("err", "ScalerFittedAtPrediction")
+        if pres["wrap"] and (isinstance(m.estimator, BaseSearchCV) or m.estimator.hp != m.estimator.want):
+            p2 = ("err", "BestParametersNotApplied")
         if c.get("pickle"):
             with tempfile.TemporaryDirectory(prefix="c12_") as td:
                 path = Path(td) / "model.pkl"
@@ -467,13 +861,15 @@ def _run_fit(c):
                     other.features = list(reversed(m.features))
                     save_model(other, path)
                 elif hist == 2:
-                    path.write_bytes(b"leftover, not a pickle\n")
+                    path.write_bytes(b"leftover, not a pickle\n" * (1 + c["seed"] % 400))
                 save_model(m, path)
                 m2 = load_model(path)
-                q1 = call_impl(lambda: _ints(m2.predict(ds)))
-                q2 = call_impl(lambda: _ints(m2.predict(ds2)))
+                q1 = call_impl(lambda: _ints(m2.predict(ds), pres))
+                q2 = call_impl(lambda: _ints(m2.predict(ds2), pres))
             if (q1, q2) != (p1, p2) or list(m2.features) != list(m.features):
                 p2 = ("err", "PickleRoundTripDiffers")
+        if list(m.features) != fnames:
+            p2 = ("err", "StoredFeatureNamesDiffer")
         return [trace, ("ok", [int(m.estimator.g_), int(m.feat_pass), desc, best, p1, p2])]
     finally:
         LOGS.pop(key, None)
@@ -481,24 +877,235 @@ def _run_fit(c):
 
 def _run_predict(c):
     from mokapot.model import Model
-    m = Model(_estimator(dict(c, lk=2), None), scaler="as-is")
+    pres = _pres(c)
+    st = pres["nstyle"]
+    m = Model(_estimator(dict(c, lk=2), None), scaler=(_classes()[5]() if pres["scaler"] else "as-is"))
     m.estimator.g_ = c["g"]
-    m.features = list(c["stored"])
+    m.features = [_nm(st, nm) for nm in c["stored"]]
     m.is_trained = c["trained"]
-    ds = _dataset(c["names"], c["cols"], [1] * c["n"], False)
-    return _ints(m.predict(ds))
+    if pres["scaler"]:
+        m.scaler.n_features_in_ = len(c["stored"])
+    ds = _dataset(c["names"], c["cols"], [1] * c["n"], False, pres, None)
+    return _ints(m.predict(ds), pres)
 
 
 def impl(c):
+    if c["fn"] == "real":
+        return call_impl(_run_real, c)
     if c["fn"] == "predict":
-        return call_impl(_run_predict, c)
+        r = call_impl(_run_predict, c)
+        _OUTCOME[_chash(c)] = (2 if c["trained"] else 0, "ok")
+        return r
     return _run_fit(c)
 
 
 def nontrivial(c):
-    if c["fn"] == "predict":
-        return True
-    return "edge" in c["tags"] or c["max_iter"] >= 2
+    """from the observed run: the main loop called estimator.fit at least twice (labels were recomputed from the
+    estimator's scores at least once), or the run left through an error exit; a predict case: the model is trained"""
+    o = _OUTCOME.get(_chash(c))
+    if o is None:
+        return False
+    return o[0] >= 2 or o[1] == "err"
+
+
+# ----------------------------------------------------------------------------- real estimators (oracle only)
+_REAL_LOG = []
+
+
+def _real_classes():
+    import numpy as np
+    from sklearn.svm import LinearSVC
+    from sklearn.linear_model import LogisticRegression
+    if "RealSVC" in globals():
+        return globals()["RealSVC"], globals()["RealLR"]
+
+    class RealSVC(LinearSVC):
+        def fit(self, X, y):
+            _REAL_LOG.append(("fit", id(self), np.array(X, dtype=float), np.array(y, dtype=float)))
+            return super().fit(X, y)
+
+        def decision_function(self, X):
+            out = super().decision_function(X)
+            _REAL_LOG.append(("scores", id(self), np.array(X, dtype=float), np.array(out, dtype=float)))
+            return out
+
+    class RealLR(LogisticRegression):
+        def fit(self, X, y):
+            _REAL_LOG.append(("fit", id(self), np.array(X, dtype=float), np.array(y, dtype=float)))
+            return super().fit(X, y)
+
+        def decision_function(self, X):
+            out = super().decision_function(X)
+            _REAL_LOG.append(("scores", id(self), np.array(X, dtype=float), np.array(out, dtype=float)))
+            return out
+
+    for cls in (RealSVC, RealLR):
+        cls.__module__ = __name__
+        cls.__qualname__ = cls.__name__
+        globals()[cls.__name__] = cls
+    return RealSVC, RealLR
+
+
+def _real_table(c):
+    rr = _random.Random(c["dseed"])
+    n, nf = c["n"], c["nf"]
+    targets = [rr.random() < 0.6 for _ in range(n)]
+    targets[0], targets[1] = True, False
+    cols = [[float(r) for r in range(n)]]                         # the row id is a feature like any other
+    for j in range(nf):
+        sep = [2.5, 1.0, 0.0, 3.5, 0.5][j] if j < 5 else 0.0
+        scale, shift = [1.0, 30.0, 0.01, 5.0, 1000.0][j % 5], [0.0, -100.0, 3.0, 50.0, 0.0][j % 5]
+        cols.append([shift + scale * (rr.gauss(0, 1) + (sep if (t and rr.random() < 0.8) else 0.0)) for t in targets])
+    return ["rid"] + ["f%d" % j for j in range(nf)], cols, targets
+
+
+def _real_dataset(names, cols, targets, pres, order=None, enforce=True):
+    import numpy as np
+    import pandas as pd
+    from mokapot.dataset import LinearPsmDataset
+    n = len(targets)
+    tv = np.array(targets, dtype=bool)
+    tv = {"bool": tv, "int": tv.astype("int64"), "float": tv.astype(float), "object": np.array(list(targets), dtype=object)}[pres["tdtype"]]
+    d = {"target": tv, "spectrum": np.arange(n), "peptide": ["P%d" % j for j in range(n)]}
+    for nm, col in zip(names, cols):
+        d[nm] = np.array(col, dtype=float)
+    fn = list(names) if order is None else [names[j] for j in order]
+    cols_df = ["target", "spectrum", "peptide"] + fn
+    fc = {"list": list(fn), "tuple": tuple(fn), "index": pd.Index(fn), "none": None}[pres["fcols"]]
+    if pres["dfperm"] is not None and fc is not None:
+        _random.Random(pres["dfperm"]).shuffle(cols_df)
+    df = pd.DataFrame(d, columns=cols_df)
+    if pres["index"]:
+        lab = list(range(n))
+        _random.Random(pres["index"] + n).shuffle(lab)
+        df.index = [v + 3 for v in lab] if pres["index"] == 1 else ["r%d" % v for v in lab] if pres["index"] == 2 else [v // 2 for v in range(n)]
+    return LinearPsmDataset(df, target_column="target", spectrum_columns="spectrum", peptide_column="peptide",
+                            feature_columns=fc, copy_data=pres["copy"], enforce_checks=enforce)
+
+
+def _run_real(c):
+    """the property, evaluated on a run of the real code with a real scikit-learn estimator and scaler: 'holds' or
+    the first clause that does not"""
+    import numpy as np
+    from mokapot.model import Model, save_model, load_model
+    from sklearn.model_selection import GridSearchCV, KFold
+    from sklearn.preprocessing import MinMaxScaler
+    from sklearn.model_selection._search import BaseSearchCV
+    RealSVC, RealLR = _real_classes()
+    pres = dict(PRES0, **(c.get("pres") or {}))
+    names, cols, targets = _real_table(c)
+    n = c["n"]
+    tab = np.array(cols, dtype=float).T
+    ds = _real_dataset(names, cols, targets, pres)
+    base = RealLR(C=1.0, tol=1e-8, max_iter=2000) if c["est"] == "logreg" else RealSVC(dual=False, random_state=7, tol=1e-8)
+    est = base
+    if c["est"] == "grid":
+        est = GridSearchCV(base, param_grid={"class_weight": [{0: neg, 1: pos} for neg in (0.1, 1, 10) for pos in (0.1, 1, 10)]},
+                           refit=False, cv=KFold(3, shuffle=True, random_state=c["seed"] % 1000))
+    scaler = {"standard": None, "minmax": MinMaxScaler(), "as-is": "as-is"}[c["scaler"]]
+    seed = c["seed"]
+    rng = {"int": seed, "npint": np.int64(seed), "generator": np.random.default_rng(seed)}[pres["rng"]]
+    if pres["gstate"] is not None:
+        np.random.seed(pres["gstate"] % (2 ** 32))
+        _random.seed(pres["gstate"])
+    thr = Fraction(c["thr"])
+    if c["est"] == "perc":        # the default model of mokapot as it is (its fits cannot be recorded: clauses on predict / pickle only)
+        from mokapot.model import PercolatorModel
+        m = PercolatorModel(scaler=scaler, train_fdr=float(c["thr"]), max_iter=c["max_iter"], direction=("f0" if c["direction"] else None),
+                            override=True, rng=rng)
+    else:
+        m = Model(est, scaler=scaler, train_fdr=float(c["thr"]), max_iter=c["max_iter"], direction=("f0" if c["direction"] else None),
+                  override=True, shuffle=c["shuffle"], rng=rng)
+    del _REAL_LOG[:]
+    r = call_impl(m.fit, ds)
+    log = list(_REAL_LOG)
+    del _REAL_LOG[:]
+    inner = m.estimator.estimator if isinstance(m.estimator, BaseSearchCV) else m.estimator
+    inv = (lambda X: X) if c["scaler"] == "as-is" else m.scaler.inverse_transform
+
+    def rows_of(X):
+        """the table rows behind the (scaled) feature rows handed to the estimator"""
+        if X.shape[1] != tab.shape[1]:
+            return None, "the estimator got %d feature columns, the table has %d" % (X.shape[1], tab.shape[1])
+        orig = inv(X)
+        rid = np.rint(orig[:, 0]).astype(int)
+        if rid.min() < 0 or rid.max() >= n or not np.allclose(orig, tab[rid], rtol=1e-7, atol=1e-7):
+            return None, "a feature row handed to the estimator is not a row of the table"
+        return rid, None
+
+    main_no = 0
+    cur = None                                     # scores per table row the estimator returned last
+    start = None
+    if m.best_feat is not None and isinstance(m.best_feat, str):
+        start = (tab[:, names.index(m.best_feat)], bool(m.desc))
+    elif c["direction"] and m.desc is not None:
+        start = (tab[:, names.index("f0")], bool(m.desc))
+    for kind, obj, X, v in log:
+        rid, msg = rows_of(X)
+        if msg:
+            return kind + ": " + msg
+        if kind == "scores":
+            if obj == id(inner) and len(rid) == n and sorted(rid) == list(range(n)):
+                cur = np.empty(n)
+                cur[rid] = v
+            continue
+        for r_, y in zip(rid, v):
+            if y not in (0.0, 1.0):
+                return "fit: label %r" % (y,)
+            if y == 1.0 and not targets[r_]:
+                return "fit: decoy row %d was handed to the estimator as a positive" % r_
+            if y == 0.0 and targets[r_]:
+                return "fit: target row %d was handed to the estimator as a negative" % r_
+        if len(set(rid)) != len(rid):
+            return "fit: a row was handed to the estimator twice"
+        if obj != id(inner):
+            continue                               # a fold of the hyper-parameter search: a subset, checked row by row above
+        if set(r_ for r_ in range(n) if not targets[r_]) - set(rid):
+            return "fit (iteration %d): a decoy is missing from the negatives" % main_no
+        ref = (cur, True) if main_no > 0 else start
+        if ref is not None and ref[0] is not None:
+            exp = spec_labels([float(x) for x in ref[0]], targets, thr, ref[1])
+            want = sorted(r_ for r_ in range(n) if exp[r_] == 1)
+            got = sorted(int(r_) for r_, y in zip(rid, v) if y == 1.0)
+            if want != got:
+                return ("fit (iteration %d): positives are rows %s..., the targets with q <= %s under the current scores are rows %s..."
+                        % (main_no, got[:8], c["thr"], want[:8]))
+        main_no += 1
+    _OUTCOME[_chash(c)] = (main_no, r[0])
+    if r[0] != "ok":
+        return "holds" if r[1] == "RuntimeError" else "fit raised " + r[1]
+    p1 = np.asarray(m.predict(ds), dtype=float)
+    if cur is not None and not np.allclose(p1, cur, rtol=1e-9, atol=1e-9):
+        return "predict on the training table differs from the scores of the last training iteration"
+    pcols, prow = c["pcols"], c["prow"]
+    cols2 = [[col[r_] for r_ in prow] for col in cols]
+    pres2 = dict(pres, index=(pres["index"] + 1) % 4, fcols={"list": "tuple", "tuple": "index", "none": "list", "index": "list"}[pres["fcols"]])
+    sub = sorted(set(pcols))
+    ds2 = _real_dataset([names[j] for j in sub], [cols2[j] for j in sub], [targets[r_] for r_ in prow], pres2,
+                        order=[sub.index(j) for j in pcols], enforce=False)
+    p2 = call_impl(lambda: np.asarray(m.predict(ds2), dtype=float))
+    if len(pcols) != len(names):
+        if p2 != ("err", "ValueError"):
+            return "prediction table lacks a feature but predict gave " + repr(p2)[:80]
+    else:
+        if p2[0] != "ok":
+            return "predict on a table with permuted feature columns raised " + p2[1]
+        if p2[1].shape != (len(prow),) or not np.allclose(p2[1], p1[prow], rtol=1e-9, atol=1e-9):
+            return "prediction of rows presented with permuted feature columns differs from their prediction in training layout"
+    with tempfile.TemporaryDirectory(prefix="c12r_") as td:
+        path = Path(td) / "m.pkl"
+        if c["hist"] == 1:
+            save_model(Model(RealSVC(), scaler="as-is"), path)
+        elif c["hist"] == 2:
+            path.write_bytes(b"x\ty\n1\t2\n" * 500)
+        save_model(m, path)
+        m2 = load_model(path)
+        q1 = np.asarray(m2.predict(ds), dtype=float)
+        if not np.array_equal(q1, p1):
+            return "a saved and re-loaded model predicts differently"
+        if len(pcols) == len(names) and not np.array_equal(np.asarray(m2.predict(ds2), dtype=float), p2[1]):
+            return "a saved and re-loaded model predicts differently (second table)"
+    return "holds"
 
 
 # ----------------------------------------------------------------------------- the property itself
@@ -508,6 +1115,8 @@ def oracle(c, i):
     under the scores of the previous fitted state; (b) for the order-independent estimator the fitted state
     and the predictions do not change when rows are permuted, the seed changes or shuffle is toggled;
     (c) prediction on permuted feature columns = prediction, wrong feature set -> ValueError."""
+    if c["fn"] == "real":
+        return None if lib.jsonable(i) == ["ok", "holds"] else f"real estimator ({c['est']}, scaler {c['scaler']}): {i[1] if len(i) > 1 else i!r}"
     if c["fn"] == "predict":
         if not c["trained"]:
             return None
@@ -525,6 +1134,10 @@ def oracle(c, i):
     row_of = {v: r for r, v in enumerate(ids)}
     n = len(targets)
     prev_scores = None
+    side = _SIDE.get(_chash(c)) or {}
+    if c.get("first") and side.get("first_ok"):
+        # the same Model object was fitted before: this fit starts from the scores of the state it reached then
+        prev_scores = c["cols"][c["sc0"] + side["g1"]]
     if c["mode"] == 2 and not c.get("pre_names"):
         # re-fit of a trained model: the labels of the first iteration come from the scores of the model as it was handed in
         prev_scores = c["cols"][c["sc0"] + c["g0"]]
@@ -537,6 +1150,8 @@ def oracle(c, i):
     for k, call in enumerate(trace):
         seen = set()
         for rid, y in call:
+            if isinstance(y, str):
+                return (f"call {k} of estimator.fit: the feature row with id {rid!r} does not carry its own features / label ({y})")
             if rid not in row_of or rid in seen:
                 return f"iteration {k}: estimator.fit received row id {rid} which is not a (distinct) row of the table"
             seen.add(rid)
@@ -571,14 +1186,29 @@ def oracle(c, i):
             if p2 != ("ok", exp):
                 return (f"prediction on permuted rows/feature columns {p2!r} differs from the prediction of the same rows "
                         f"in training layout {exp}")
+    if res[0] == "err":
+        k = res[1]
+        known_exit = (k == "RuntimeError" or (k == "KeyError" and c["mode"] == 1 and c["dir"] not in c["names"])
+                      or (k == "IndexError" and c["max_iter"] == 0))
+        if not known_exit:
+            return f"Model.fit left through {k}, which is none of its exits for this input (both classes present, max_iter={c['max_iter']})"
     # (d) decision_function or predict_proba: the scoring method the estimator offers does not matter
     if c["skind"] != 0 and not c.get("_variant"):
         j = _run_fit(dict(c, skind=0, _variant=True, pickle=False))
         if lib.jsonable(j) != lib.jsonable([trace, res]):
-            return (f"an estimator offering only predict_proba ({'two columns' if c['skind'] == 1 else 'one column'}) gives "
+            what = {1: "two columns", 2: "one column", 3: "one-dimensional", 4: "two columns, nested lists"}[c["skind"]]
+            return (f"an estimator offering only predict_proba ({what}) gives "
                     f"{res!r}, the same estimator with decision_function gives {j[1]!r}")
+    # (e) the presentation of the table / the model settings (row labels, column order, dtypes, value scale, scaler,
+    # kind of rng argument, hyper-parameter search around the estimator, order of predict calls) does not matter
+    if c.get("pres") and not c.get("_variant"):
+        j = _run_fit(dict(c, pres=None, _variant=True, pickle=False))
+        if lib.jsonable(j) != lib.jsonable([trace, res]):
+            diff = {k: v for k, v in c["pres"].items() if v != PRES0[k]}
+            return (f"the same PSMs presented with {diff} give {res!r} (training sets {'equal' if lib.jsonable(j[0]) == lib.jsonable(trace) else 'differ'}), "
+                    f"in the plain presentation {j[1]!r}")
     # (b) order invariance, order-independent estimators only
-    if c["lk"] != 1 and c["mode"] != 2 and not c.get("_variant"):
+    if c["lk"] != 1 and c["mode"] != 2 and not c.get("first") and not c.get("_variant"):
         import random
         rr = random.Random(lib.stable_hash({k: v for k, v in c.items() if k != "tags"}))
         pi = list(range(n))
@@ -612,8 +1242,22 @@ def shrink(c):
             break
         keep = [j for j in range(n) if j != r]
         remap = {j: k for k, j in enumerate(keep)}
+        first = c.get("first")
+        if first:
+            first = {"rows": [remap[j] for j in first["rows"] if j in remap]}
+            if len(first["rows"]) < 2:
+                continue
         yield dict(c, cols=[[col[j] for j in keep] for col in c["cols"]], targets=[c["targets"][j] for j in keep],
-                   prow=[remap[j] for j in c["prow"] if j in remap] or [0])
+                   prow=[remap[j] for j in c["prow"] if j in remap] or [0], first=first)
+    if c.get("first"):
+        yield dict(c, first=None)
+    if c.get("pres"):
+        yield dict(c, pres=None)
+        for k, v in c["pres"].items():
+            if v != PRES0[k]:
+                cand = dict(c["pres"], **{k: PRES0[k]})
+                if k == "vmap" or cand["fdtype"] in ("float64", "mixed") or tuple(cand["vmap"]) == (0, 0):
+                    yield dict(c, pres=cand)
     if c["pnames"] != c["names"]:
         yield dict(c, pnames=list(c["names"]))
     if c["prow"] != list(range(n)):
@@ -648,4 +1292,88 @@ def extra_checks(ctx):
         if drawn != sg:
             fails.append({"what": f"Model(rng={seed}).rng does not reproduce default_rng({seed})"})
         checked += 1
-    return fails, {"sigma_contract_checked": checked}
+    # the second draw (an earlier fit of the same Model object)
+    for _ in range(10):
+        n0, n = rng.randint(2, 30), rng.randint(2, 30)
+        seed = rng.randrange(10 ** 6)
+        m = Model(RecDF(), scaler="as-is", rng=np.random.default_rng(seed))
+        m.rng.permutation(np.arange(n0))
+        if [int(v) for v in m.rng.permutation(np.arange(n))] != sigma_of(seed, n, n0):
+            fails.append({"what": f"second draw of Model(rng=Generator({seed})).rng is not reproduced"})
+        checked += 1
+    f2, info = _fresh_interpreter_check(ctx)
+    fails.extend(f2)
+    info["sigma_contract_checked"] = checked
+    return fails, info
+
+
+def _fresh_interpreter_check(ctx):
+    """save_model here, load_model in a NEW interpreter (another PYTHONHASHSEED, nothing of this process in memory):
+    the loaded model predicts what the saved one predicted"""
+    from mokapot.model import save_model
+    rng = ctx.sub("fresh")
+    want = 24 if ctx.thorough else 8
+    jobs = []
+    fails = []
+    with tempfile.TemporaryDirectory(prefix="c12f_") as td:
+        tries = 0
+        while len(jobs) < want and tries < 20 * want:
+            tries += 1
+            c = _random_case(rng, 30, ("fresh",), force={"mode": rng.choice([0, 1]), "thr": rng.choice(["0.5", "1.0"])})
+            c["override"] = True
+            if set(c["pnames"]) != set(c["names"]):
+                c["pnames"] = list(reversed(c["names"]))
+            c["pres"] = _draw_pres(rng, c)
+            c["pres"]["wrap"] = 0
+            _KEY[0] += 1
+            key = "k%d" % _KEY[0]
+            pres = _pres(c)
+            try:
+                ds = _dataset(c["names"], c["cols"], c["targets"], True, pres, c["idc"])
+                m = _make_model(c, key, pres)
+                if call_impl(m.fit, ds)[0] != "ok":
+                    continue
+                names2, cols2, n2 = second_table(c)
+                ds2 = _dataset(names2, cols2, [c["targets"][r_] for r_ in c["prow"]], False, pres, names2.index("id"))
+                exp = [_ints(m.predict(ds), pres), _ints(m.predict(ds2), pres)]
+                path = Path(td) / ("m%d.pkl" % len(jobs))
+                save_model(m, path)
+                jobs.append({"case": c, "path": str(path), "expected": exp})
+            finally:
+                LOGS.pop(key, None)
+        (Path(td) / "jobs.json").write_text(json.dumps(jobs))
+        env = dict(os.environ, PYTHONHASHSEED=str(1 + rng.randrange(10 ** 6)))
+        pr = subprocess.run([sys.executable, "-W", "ignore", "-c",
+                             "import sys; from harness.props import c12; c12._fresh_main(sys.argv[1])", td],
+                            env=env, cwd=str(Path(__file__).resolve().parents[2]), stdout=subprocess.PIPE, stderr=subprocess.PIPE,
+                            timeout=900)
+        try:
+            got = json.loads(pr.stdout.decode().strip().splitlines()[-1])
+        except Exception:
+            return [{"what": "load_model in a fresh interpreter: no answer (%s)" % pr.stderr.decode()[-300:]}], {"fresh_interpreter_loads": 0}
+        for job, g in zip(jobs, got):
+            if g != lib.jsonable(["ok", job["expected"]]):
+                fails.append({"what": "a model saved by save_model and loaded by load_model in a fresh interpreter predicts %r, "
+                                      "the saved model predicted %r" % (g, job["expected"]),
+                              "failing_input": dict(job["case"], pickle=True)})
+    return fails, {"fresh_interpreter_loads": len(jobs)}
+
+
+def _fresh_main(td):
+    """runs in the fresh interpreter"""
+    import logging
+    logging.disable(logging.CRITICAL)
+    from mokapot.model import load_model
+    out = []
+    for job in json.loads((Path(td) / "jobs.json").read_text()):
+        c = job["case"]
+        pres = _pres(c)
+
+        def run():
+            m = load_model(Path(job["path"]))
+            ds = _dataset(c["names"], c["cols"], c["targets"], True, pres, c["idc"])
+            names2, cols2, n2 = second_table(c)
+            ds2 = _dataset(names2, cols2, [c["targets"][r_] for r_ in c["prow"]], False, pres, names2.index("id"))
+            return [_ints(m.predict(ds2), pres), _ints(m.predict(ds), pres)][::-1]
+        out.append(lib.jsonable(call_impl(run)))
+    print(json.dumps(out))
